@@ -4,7 +4,7 @@ import json
 from lv import core, noise, parsers, syntaxgen, syntaximport
 
 ID = 'C06'
-BUDGET = {'quick': 2400, 'thorough': 60000}     # generated programs; ~4 texts each
+BUDGET = {'quick': 4000, 'thorough': 60000}     # generated programs; ~4 texts each
 WALL = {'quick': 1800, 'thorough': 7200}     # safety net only (=> inconclusive shards)
 RULE = ('programs of the syntactic grammar generator lv/syntaxgen.py (every statement, '
         'literal, operator and denotation form of docs/syntax.md plus the forms of the '
